@@ -199,6 +199,27 @@ def main(tier):
                 1 if smart else 0, w, docgen.ribbon_width(w, 1.0), docgen.to_sexp(d),
                 ' '.join('(%d %s)' % (k, cps(s)) for k, s in sorted(tbl.items())), cps(reset)))
             dmeta.append((d, w, smart, name, st))
+        # one token nested in another, every style: the inner token's own style applies - also when
+        # that style is "nothing" - and the outer one comes back afterwards
+        npairs = 0
+        for name, st in ok_styles:
+            tbl, reset = tables[name]
+            toks = sorted(tbl)
+            bare = [k for k in toks if not any(want_attrs(st, __import__('prettyprinter.syntax', fromlist=['Token']).Token(k)).values())]
+            pairs = [(a, b) for a in toks for b in toks if a != b]
+            if tier == 'quick':
+                keep = [p_ for p_ in pairs if p_[0] in bare or p_[1] in bare]
+                keep = r.sample(keep, min(len(keep), 30)) + r.sample(pairs, 10)
+            else:
+                keep = pairs
+            for a, b in keep:
+                d = ('An', ('tok', a), ('C', [('T', 'x'), ('An', ('tok', b), ('C', [('T', 'y'), ('An', ('tok', a), ('T', 'w'))])),
+                                              ('T', 'z')]))
+                reqs.append('(colord 1 20 20 %s (%s) (%s))' % (
+                    docgen.to_sexp(d), ' '.join('(%d %s)' % (k, cps(s_)) for k, s_ in sorted(tbl.items())), cps(reset)))
+                dmeta.append((d, 20, True, name, st))
+                npairs += 1
+        run.coverage['nested_token_pair_documents'] = npairs
         res = run_driver(reqs, shards=8)[1:]
         dis = 0
         nontriv = 0
@@ -251,7 +272,9 @@ def main(tier):
             'every pygments style installed (%d) plus the bundled light style: styleattrs_to_colorful on the style of '
             'every syntax token (colours forced on with colorful.use_true_colors); seeded random values (half with '
             'subclasses, comments, trailing comments, calls) x layout configurations and seeded random documents over '
-            'the full algebra with token and non-token annotations nested, each under a random style: the text written '
+            'the full algebra with token and non-token annotations nested, each under a random style; under EVERY style '
+            'documents nesting one syntax token inside another (quick: the pairs involving a token the style leaves '
+            'unstyled + 10 random pairs; thorough: all pairs): the text written '
             'by colored_render_to_stream is compared byte for byte with the model instantiated with the tabulated '
             'colour strings. Oracle (independent SGR interpreter): stripping ESC[...m gives the plain rendering, every '
             'non-blank character carries exactly the attributes pygments prescribes for its innermost token (reference '
